@@ -26,7 +26,7 @@ S = {
 os.chdir('/verif/seeded')
 for sid in sorted(os.listdir('.')):
     if not os.path.isdir(sid): continue
-    prop = sid.rstrip('b')
+    prop = sid[:3]
     if sid not in S:
         am = f'{sid}/agent_meta.json'
         if not os.path.exists(am): continue
